@@ -1174,6 +1174,12 @@ func init() {
 	// C06(b): a merger concurrent with writers, one writer per key
 	withConcArm("C06", 0.35, func(c *Case, rng *vrt.Rand, tier string) {
 		c.Cfg = concConfig(rng)
+		if rng.Chance(0.4) {
+			// the merge races one kind of writer on shared keys - batches (some spilling before Commit), puts,
+			// deletes or a mix: live == restart after the adoption and after the restart that follows
+			mergeRace(c, rng)
+			return
+		}
 		var tag uint32
 		keys := genKeys(rng, rng.Range(2, 6))
 		c.Setup = nil
